@@ -39,6 +39,7 @@ class Check(HCheck):
             al.addprefix(Az, 0),
             al.rmprefix(Aw),
             al.rule(Ax, "path2"),
+            al.clear("domain", {Ax: "path1"}),
             al.unrule(Ax),
             al.unrule(A),
         ]
